@@ -128,7 +128,9 @@ impl ValueWriter for Rec<'_> {
     }
     fn error(self, error: ValidationError) {
         LAST_CALL.with(|c| *c.borrow_mut() = Call::ErrRaw(error.clone()));
-        *self.0.borrow_mut() = sx::tag(2, vec![sx::b(error.to_string())]);
+        // the wording of a validation error is not compared (no property fixes it): a fixed token
+        let _ = &error;
+        *self.0.borrow_mut() = sx::tag(2, vec![sx::b("error")]);
     }
 }
 fn record(v: &impl Value) -> Sx {
@@ -281,7 +283,7 @@ fn feed_mean<U: Tg>(calls: &[Call]) -> (Mean<U>, Sx) {
         // record_value takes any Value, whatever unit it promises
         rs.push(match m.record_value(&Script::<unit::None>::new(c.clone())) {
             Ok(()) => Sx::L(vec![]),
-            Err(e) => Sx::L(vec![sx::b(e.to_string())]),
+            Err(_) => Sx::L(vec![sx::b("error")]),
         });
     }
     (m, Sx::L(rs))
@@ -378,7 +380,7 @@ where
         DurShape::OptD(d) => record(&WithUnit::<Option<Duration>, T>::from(*d)),
         DurShape::MeanD(ds) => match Mean::<unit::Millisecond>::try_new(ds.iter()) {
             Ok(m) => record(&WithUnit::<Mean<unit::Millisecond>, T>::from(m)),
-            Err(e) => sx::tag(2, vec![sx::b(e.to_string())]),
+            Err(_) => sx::tag(2, vec![sx::b("error")]),
         },
     }
 }
